@@ -483,6 +483,7 @@ class TopoModel(Model):
                                 ev.append(('sub_add_sub', (w, i.name), 'sub1', '100'))
                             for sn in sorted(subs):
                                 ev.append(('remove_sub', (w, i.name), sn))
+                            ev.append(('sub_remove_nic_interface', w, 'nic1', i.name))
         if 'sw' not in names:
             ev.append(('sub_add_switch', 'sw'))
         links = set(self.t.links.keys())
@@ -703,6 +704,11 @@ class TopoModel(Model):
             t.remove_link(ev[1])
         elif k == 'sub_remove_ns_interface':
             s = self.node(ev[1]).network_services[ev[2]]
+            s.remove_interface(name=ev[3])
+            self.handles['service'] = s
+        elif k == 'sub_remove_nic_interface':
+            # the service of a NIC: its port may own sub-interfaces, which go with it
+            s = list(self.node(ev[1]).components[ev[2]].network_services.values())[0]
             s.remove_interface(name=ev[3])
             self.handles['service'] = s
         elif k == 'sub_remove_node_service':
@@ -938,7 +944,7 @@ def c07_views(model: TopoModel, raw: Raw, scopes_ok):
 
 # ================================================================================================ C08 oracles
 REMOVALS = {'remove_node', 'remove_facility', 'remove_switch', 'remove_component', 'remove_service', 'remove_service_owned', 'disconnect', 'unpeer', 'remove_link',
-            'remove_sub', 'prune', 'sub_remove_link', 'sub_remove_ns_interface', 'sub_remove_node_service'}
+            'remove_sub', 'prune', 'sub_remove_link', 'sub_remove_ns_interface', 'sub_remove_nic_interface', 'sub_remove_node_service'}
 
 
 def _find(pre: Raw, cls, name, within=None):
@@ -985,6 +991,14 @@ def c08_targets(pre: Raw, ev):
         n = _find(pre, NN, ev[1])
         s = _find(pre, NS, ev[2], pre.nb(n, 'has', NS)) if n else None
         i = _find(pre, CP, ev[3], pre.nb(s, 'connects', CP)) if s else None
+        if i is None:
+            return ('unspecified', 'ambiguous')
+        T = {i} | pre.owned(i)
+    elif k == 'sub_remove_nic_interface':
+        n = _find(pre, NN, ev[1])
+        c = _find(pre, COMP, ev[2], pre.nb(n, 'has', COMP)) if n else None
+        ss = pre.nb(c, 'has', NS) if c else []
+        i = _find(pre, CP, ev[3], pre.nb(ss[0], 'connects', CP)) if ss else None
         if i is None:
             return ('unspecified', 'ambiguous')
         T = {i} | pre.owned(i)
